@@ -183,6 +183,9 @@ void DNS::add_query(const query& query) {
     stream.write_be<uint16_t>(query.query_class());
 
     uint32_t offset = static_cast<uint32_t>(new_str.size()), threshold = answers_idx_;
+    check_records(answers_idx_, answers_count());
+    check_records(authority_idx_, authority_count());
+    check_records(additional_idx_, additional_count());
     update_records(answers_idx_, answers_count(), threshold, offset);
     update_records(authority_idx_, authority_count(), threshold, offset);
     update_records(additional_idx_, additional_count(), threshold, offset);
@@ -230,6 +233,9 @@ void DNS::add_record(const resource& resource, const sections_type& sections) {
     // Take into account the MX preference field
     if (resource.query_type() == MX) {
         offset += sizeof(uint16_t);
+    }
+    for (size_t i = 0; i < sections.size(); ++i) {
+        check_records(*sections[i].first, sections[i].second);
     }
     for (size_t i = 0; i < sections.size(); ++i) {
         update_records(
@@ -514,7 +520,73 @@ void DNS::convert_records(const uint8_t* ptr,
     }
 }
 
-// no length checks, records should already be valid
+// Returns the end of the (possibly compressed) name that starts at ptr,
+// making sure it lies inside [ptr, end)
+static const uint8_t* checked_dname_end(const uint8_t* ptr, const uint8_t* end) {
+    while (true) {
+        if (ptr >= end) {
+            throw malformed_packet();
+        }
+        if (*ptr == 0) {
+            return ptr + 1;
+        }
+        if ((*ptr & 0xc0)) {
+            if (end - ptr < 2) {
+                throw malformed_packet();
+            }
+            return ptr + sizeof(uint16_t);
+        }
+        if (end - ptr <= *ptr) {
+            throw malformed_packet();
+        }
+        ptr += *ptr + 1;
+    }
+}
+
+// Checks that update_records can walk these records without leaving the
+// buffer. The records come from the network: the constructor validates
+// neither the names inside the record data nor, for a message that only 
+// contains a header, the record counts.
+void DNS::check_records(uint32_t section_start, uint32_t num_records) const {
+    if (section_start >= records_data_.size()) {
+        return;
+    }
+    const uint8_t* ptr = &records_data_[section_start];
+    const uint8_t* end = &records_data_[0] + records_data_.size();
+    for (uint32_t i = 0; i < num_records; ++i) {
+        ptr = checked_dname_end(ptr, end);
+        if (static_cast<size_t>(end - ptr) < sizeof(uint16_t) * 3 + sizeof(uint32_t)) {
+            throw malformed_packet();
+        }
+        uint16_t type;
+        memcpy(&type, ptr, sizeof(uint16_t));
+        type = Endian::be_to_host(type);
+        ptr += sizeof(uint16_t) * 2 + sizeof(uint32_t);
+        uint16_t size;
+        memcpy(&size, ptr, sizeof(uint16_t));
+        size = Endian::be_to_host(size);
+        ptr += sizeof(uint16_t);
+        if (end - ptr < size) {
+            throw malformed_packet();
+        }
+        const uint8_t* data_end = ptr + size;
+        if (type == MX) {
+            if (size < sizeof(uint16_t)) {
+                throw malformed_packet();
+            }
+            ptr += sizeof(uint16_t);
+        }
+        if (contains_dname(type)) {
+            checked_dname_end(ptr, data_end);
+        }
+        else if (type == SOA) {
+            checked_dname_end(checked_dname_end(ptr, data_end), data_end);
+        }
+        ptr = data_end;
+    }
+}
+
+// no length checks, check_records has validated the records
 uint8_t* DNS::update_dname(uint8_t* ptr, uint32_t threshold, uint32_t offset) {
     while (*ptr != 0) {
         if ((*ptr & 0xc0)) {
@@ -539,7 +611,7 @@ uint8_t* DNS::update_dname(uint8_t* ptr, uint32_t threshold, uint32_t offset) {
 }
 
 // Updates offsets in domain names inside records.
-// No length checks, records are already valid.
+// No length checks, check_records has validated the records.
 void DNS::update_records(uint32_t& section_start, 
                          uint32_t num_records, 
                          uint32_t threshold, 
